@@ -3,7 +3,7 @@
     resulting bootengine.Log (before any validator touched it), runs the three
     REAL validators on it (in the order of validator.All()) and writes the
     projection plus what the validators returned; [check] re-runs the model. *)
-From CSS Require Import Lib.Base Lib.Cases Model.Ranges Model.Refs Model.Validators.
+From CSS Require Import Lib.Base Lib.Cases Model.Ranges Model.Refs Model.Validators Model.ValidatorsHeap.
 
 (** artifact table entry: identity class, rank of the type name, is RawBytes, Size() *)
 Definition part : Type := (Z * Z * bool * Z)%type.
@@ -20,10 +20,28 @@ Definition oref : Type := (Z * bool * list (Z * Z))%type.
 (** observed issue: StepIdx, kind, non-measured, measured *)
 Definition oissue : Type := (Z * Z * list oref * list oref)%type.
 
+(** slice header (array index, offset, len, cap) and a reference of the log whose
+    Ranges is that slice; backing arrays as (offset, length) lists *)
+Definition psl : Type := (nat * nat * nat * nat)%type.
+Definition hpref : Type := (nat * mapper * psl)%type.
+Definition hpstep : Type := (option Z * option (list hpref) * list hpref * list Z)%type.
+Definition pheap : Type := list (list (Z * Z)).
+(** one run of a validator over the log: 0 = ValidatorActorsAreProtected,
+    1 = ValidatorFinalCoverageIsComplete; what it returned; the contents of the
+    backing arrays afterwards ([None]: unchanged) *)
+Definition stage : Type := (nat * obs (list oissue) * option pheap)%type.
+
 Inductive case : Type :=
 | CLog (arts : list part) (steps : list pstep)
        (files : option (list pref))          (* UEFIFiles(...).Data: references / error *)
-       (o_vap o_vfc : obs (list oissue)) (o_vni : list (Z * Z)).
+       (o_vap o_vfc : obs (list oissue)) (o_vni : list (Z * Z))
+(** the log with its memory layout: [h0] = the backing arrays of all range
+    slices of the log before any validator ran (whole capacity, shared arrays
+    once); [stages] = the validators run one after another on the SAME log (the
+    chain of validator.All(), then again) *)
+| CHeap (arts : list part) (h0 : pheap) (steps : list hpstep)
+        (files : option (list pref))
+        (stages : list stage) (o_vni : list (Z * Z)).
 
 Definition mk_art (p : part) : art :=
   let '(i, tn, raw, size) := p in mkArt i tn raw (repeat 0 (Z.to_nat size)).
@@ -51,8 +69,46 @@ Definition proj_issue (f : ref -> oref) (v : vissue) : oissue :=
   (vi_step v, vi_kind v, map f (vi_refs v), map f (vi_meas v)).
 Definition map_out {A B} (f : A -> B) (o : outcome A) : outcome B := bind o (fun a => Ok (f a)).
 
+Definition mk_heap (p : pheap) : heap := map (map (fun '(o, l) => mkR o l)) p.
+Definition mk_sl (p : psl) : sl := let '(a, o, n, c) := p in mkSl a o n c.
+Definition mk_lref (tbl : list art) (p : hpref) : lref :=
+  let '(i, m, s) := p in (nth i tbl no_art, m, mk_sl s).
+Definition mk_hstep (tbl : list art) (p : hpstep) : hstep :=
+  let '(a, code, meas, iss) := p in
+  mkHS a (option_map (map (mk_lref tbl)) code) (map (mk_lref tbl) meas) iss.
+
+Definition heap_eqb (a b : heap) : bool := list_eqb (list_eqb range_eqb) a b.
+
+(** Every stage starts from the heap the previous one left (as observed).  The
+    slice-level model must reproduce what the validator returned AND the heap
+    afterwards; when no slice with fewer than two ranges has spare capacity
+    ([nss]) the value-level model of Model/Validators.v (the one the theorems of
+    Props/C10.v are about), applied to what the log reads as at that moment,
+    must reproduce the returned issues as well. *)
+Fixpoint check_stages (L : list hstep) (fl : outcome (list ref)) (nss : bool) (h : heap)
+         (st : list stage) : bool :=
+  match st with
+  | [] => true
+  | (k, o, post) :: t =>
+      let hp := match post with None => h | Some a => mk_heap a end in
+      let '(h', out) := match k with O => hvap h L | _ => hvfc h fl L end in
+      let vout := match k with O => vap (val_log h L) | _ => vfc fl (val_log h L) end in
+      let pr := match k with O => proj_tn | _ => proj_id end in
+      obs_match (list_eqb oissue_eqb) o (map_out (map (proj_issue pr)) out)
+      && match out with Ok _ => heap_eqb h' hp | _ => true end
+      && (if nss then obs_match (list_eqb oissue_eqb) o (map_out (map (proj_issue pr)) vout) else true)
+      && check_stages L fl nss hp t
+  end.
+
 Definition check (c : case) : bool :=
   match c with
+  | CHeap arts h0 steps files stages o_vni =>
+      let tbl := map mk_art arts in
+      let L := map (mk_hstep tbl) steps in
+      let h := mk_heap h0 in
+      let fl := match files with Some f => Ok (map (mk_ref tbl) f) | None => Err 1 end in
+      check_stages L fl (no_small_spare L) h stages
+      && list_eqb pair_eqb o_vni (vni (val_log h L))
   | CLog arts steps files o_vap o_vfc o_vni =>
       let tbl := map mk_art arts in
       let l := map (mk_step tbl) steps in
